@@ -31,4 +31,29 @@ theorem vprint_exact (g : G Label Hex) (v : Nat) (hv : v < cap g) :
     vPrint g v = some (s!"ν{v}⟦" ++ (if pers g v = .empty then "" else "Δ, ") ++
       ", ".intercalate ((edg g v).map (fun e => labelText e.1)) ++ "⟧") := Rs.vprint_exact g v hv
 
+/-! ### at the level of the text (`Algo/RenderText.lean`)
+
+`toInspect g v` is `String.ofList (inspectChars v ls)`, the text character by character (found equal to the text of the
+real `inspect()` by the correspondence check on every export it compares). -/
+
+/-- every stored label is a canonical label value whose text has no `"`, newline or blank -/
+def PlainLabels (g : G Label Hex) : Prop := ∀ u, ∀ e ∈ edg g u, PlainLabel e.1
+
+/-- **the text of `inspect` reads back as the start vertex and the edge lines** (depth, label as a label value, target,
+    the `…` mark), and the entries read from the text are, as a multiset, exactly the edges of the vertices reachable
+    from `v`, every one once -/
+theorem inspect_text_lists_every_edge_once (g : G Label Hex) (hp : PlainLabels g) (v : Nat) (hv : v < cap g)
+    (ls : List Line) (h : inspectLines g v = some ls) :
+    ∃ t, toInspect g v = some t ∧ readInspect t.toList = some (v, ls) ∧
+      (ls.map (fun l => (l.label, l.target))).Perm ((v :: nonEll ls).flatMap (fun u => edg g u)) := by
+  have hperm := Rs.inspect_lists_every_edge_once g v ls h
+  refine ⟨String.ofList (inspectChars v ls), by simp [toInspect, hv, h], ?_, hperm⟩
+  rw [String.toList_ofList]
+  apply readInspect_chars
+  intro l hl
+  have hm : (l.label, l.target) ∈ (v :: nonEll ls).flatMap (fun u => edg g u) :=
+    hperm.subset (List.mem_map.2 ⟨l, hl, rfl⟩)
+  obtain ⟨u, _, hu⟩ := List.mem_flatMap.1 hm
+  exact hp u _ hu
+
 end Props.C20
